@@ -83,6 +83,8 @@ func TestC01(t *testing.T) {
 	p := defaultProfile()
 	p.MinBlocks, p.MaxBlocks = 8, 40
 	p.Alt, p.PAlt = massExitProfile(), 30
+	p.Inject = true
+	p.Alt.Inject = true
 	runCheck(t, "C01", p, func(src Source, st *Stats) *Outcome {
 		c, err := RunPrimary("C01", src, nil)
 		out := &Outcome{Case: c}
@@ -102,7 +104,17 @@ func TestC01(t *testing.T) {
 			st.label("histories_with_multi_removal_block(4 replicas)", 1)
 		}
 		for r := 0; r < extra; r++ {
-			sb, resB, rerr := runReplica(c.Hist, nil, nil)
+			// what a node's mempool and RPC clients happen to ask is node-local too: replica B (only) serves the
+			// generated CheckTx/Query schedule of the history while it executes the blocks; the others are quiet.
+			var pre func(s *Sim, bi int, b *Block)
+			var hooks func(s *Sim, bi int, b *Block) *BlockHooks
+			if r == 0 {
+				pre = func(s *Sim, bi int, b *Block) { _, _ = runInjected(s, b, -1) }
+				hooks = func(s *Sim, bi int, b *Block) *BlockHooks {
+					return injectionHooks(s, b, func(int, int32) { st.label("replica_B_accepted_mempool_checks", 1) }, func(*PanicError) {})
+				}
+			}
+			sb, resB, rerr := runReplicaPre(c.Hist, pre, hooks, nil)
 			if rerr != nil {
 				sb.Close(true)
 				out.Err = violationf("replica %c failed where replica A did not: %v", 'B'+r, rerr)
